@@ -85,6 +85,8 @@ where
 
     fn setup_seal_ctx(&self, id: LocalChannelId) -> Result<Self::SealCtx, crate::Error> {
         let mutex = self.inner.load_read_list()?;
+        #[cfg(aranya_core_verif)]
+        super::verif_sites::at(super::verif_sites::SITE_SHM_READER_LOCK);
         let mut list = mutex.lock().assume("poisoned")?;
 
         let generation = list.generation.load(Ordering::Relaxed);
@@ -108,6 +110,8 @@ where
 
     fn setup_open_ctx(&self, id: LocalChannelId) -> Result<Self::OpenCtx, crate::Error> {
         let mutex = self.inner.load_read_list()?;
+        #[cfg(aranya_core_verif)]
+        super::verif_sites::at(super::verif_sites::SITE_SHM_READER_LOCK);
         let mut list = mutex.lock().assume("poisoned")?;
 
         let generation = list.generation.load(Ordering::Relaxed);
@@ -143,6 +147,8 @@ where
 
         let mutex = self.inner.load_read_list()?;
 
+        #[cfg(aranya_core_verif)]
+        super::verif_sites::at(super::verif_sites::SITE_SHM_GEN_LOAD);
         let hint = {
             // SAFETY: we only access an atomic field.
             let generation = unsafe {
@@ -168,6 +174,8 @@ where
 
         // We don't have a cached key, so we need to traverse the
         // list.
+        #[cfg(aranya_core_verif)]
+        super::verif_sites::at(super::verif_sites::SITE_SHM_READER_LOCK);
         let mut list = mutex.lock().assume("poisoned")?;
 
         // The list is currently locked (precluding writes to
@@ -217,6 +225,8 @@ where
 
         let mutex = self.inner.load_read_list()?;
 
+        #[cfg(aranya_core_verif)]
+        super::verif_sites::at(super::verif_sites::SITE_SHM_GEN_LOAD);
         let hint = {
             // SAFETY: we only access an atomic field.
             let generation = unsafe {
@@ -239,6 +249,8 @@ where
 
         // We don't have a cached key, so we need to traverse the
         // list.
+        #[cfg(aranya_core_verif)]
+        super::verif_sites::at(super::verif_sites::SITE_SHM_READER_LOCK);
         let list = mutex.lock().assume("poisoned")?;
 
         let (chan, idx) = match list.find(id, hint, Op::Open)? {
@@ -261,6 +273,8 @@ where
 
     fn exists(&self, id: LocalChannelId) -> Result<bool, crate::Error> {
         let mutex = self.inner.load_read_list()?;
+        #[cfg(aranya_core_verif)]
+        super::verif_sites::at(super::verif_sites::SITE_SHM_READER_LOCK);
         let list = mutex.lock().assume("poisoned")?;
         Ok(list.exists(id, None, Op::Any)?)
     }
